@@ -313,6 +313,30 @@ impl Statement {
     /// any statement may fail; a successful execution was bound to the parameters `p` (a fact only this contract establishes)
     #[verifier::external_body]
     pub fn execute<P>(&mut self, p: P) -> (r: std::result::Result<usize, rusqlite::Error>) ensures r is Ok ==> stmt_executed(p) { unimplemented!() }
+    /// the look-up of the version of a row that is stored (`SELECT mdate FROM _node WHERE room_id = ? AND id = ?`: the SQL is assumed):
+    /// its answer is the uninterpreted `stored_version_date` of the bound (room, id)
+    #[verifier::external_body]
+    pub fn query<P>(&mut self, p: P) -> (r: std::result::Result<Rows, rusqlite::Error>) ensures r is Ok ==> r->Ok_0.answer() == stored_version_date(p) { unimplemented!() }
+}
+/// the modification date of the row stored for the bound (room, id), if one is stored: what is in the database when the deletion is applied
+pub uninterp spec fn stored_version_date<P>(p: P) -> Option<i64>;
+pub struct Rows { x: u8 }
+pub struct Row { x: u8 }
+impl Rows {
+    pub uninterp spec fn answer(&self) -> Option<i64>;
+    #[verifier::external_body]
+    pub fn next(&mut self) -> (r: std::result::Result<Option<Row>, rusqlite::Error>)
+        ensures match r { Ok(Some(row)) => old(self).answer() == Some(row.value()), Ok(None) => old(self).answer() is None, Err(_) => true }
+    { unimplemented!() }
+}
+impl Row {
+    pub uninterp spec fn value(&self) -> i64;
+    /// (specialised to the one use: column 0 read as an i64)
+    #[verifier::external_body]
+    pub fn get(&self, idx: usize) -> (r: std::result::Result<i64, rusqlite::Error>) ensures r is Ok ==> r->Ok_0 == self.value() { unimplemented!() }
+}
+pub open spec fn removed_version_day_marked(n: NodeDeletionEntry, dm: DailyMutations) -> bool {
+    stored_version_date::<(&Uid, &Uid)>((&n.room_id, &n.id)) is Some ==> marked(dm, n.room_id, n.entity@, spec_day(stored_version_date::<(&Uid, &Uid)>((&n.room_id, &n.id))->Some_0))
 }
 pub struct Connection { x: u8 }
 impl Connection {
@@ -350,7 +374,9 @@ impl EdgeDeletionEntry {
                 it.seq().len() == old(nodes)@.len(), forall|i: int| #![trigger it.seq()[i]] #![trigger old(nodes)@[i]] 0 <= i < it.seq().len() ==> *it.seq()[i] == old(nodes)@[i],
                 forall|i: int| 0 <= i < it.index@ ==> marked(*daily_log, (#[trigger] old(nodes)@[i]).room_id, old(nodes)@[i].entity@, spec_day(old(nodes)@[i].deletion_date))
                     && marked(*daily_log, old(nodes)@[i].room_id, old(nodes)@[i].entity@, spec_day(old(nodes)@[i].mdate)),
-                // [received_row_deletions_bound_so_far]{C02}
+                // [day_of_the_removed_version_marked_so_far]{C09}
+                forall|i: int| 0 <= i < it.index@ ==> removed_version_day_marked(#[trigger] old(nodes)@[i], *daily_log),
+                // [received_row_deletions_bound_so_far]{C02,C11}
                 forall|i: int| 0 <= i < it.index@ ==> stmt_executed(((#[trigger] old(nodes)@[i]).room_id, old(nodes)@[i].id)),
                 // [received_node_tombstones_recorded_so_far]{C11,C03}
                 forall|i: int| 0 <= i < it.index@ ==> node_tombstone_written(#[trigger] old(nodes)@[i]),
@@ -359,9 +385,11 @@ impl EdgeDeletionEntry {
             // [received_node_tombstones_mark_both_days] every row tombstone applied from a peer marks, in the same batch, the day it enters (deletion date) and the day the deleted row leaves (its modification date)
             r is Ok ==> forall|i: int| 0 <= i < old(nodes)@.len() ==> marked(*final(daily_log), (#[trigger] old(nodes)@[i]).room_id, old(nodes)@[i].entity@, spec_day(old(nodes)@[i].deletion_date))
                     && marked(*final(daily_log), old(nodes)@[i].room_id, old(nodes)@[i].entity@, spec_day(old(nodes)@[i].mdate)),
+            // [received_row_deletion_marks_the_day_of_the_version_it_removes]{C09} the deletion removes the row stored for (room, id) whatever its version: the day of THAT version - which may be another day than the one the record names, when a newer version is stored - loses a row and is marked too, in the same batch (F44)
+            r is Ok ==> forall|i: int| 0 <= i < old(nodes)@.len() ==> removed_version_day_marked(#[trigger] old(nodes)@[i], *final(daily_log)),
             // [received_node_tombstones_keep_marks]
             marks_superset(*old(daily_log), *final(daily_log)),
-            // [received_row_deletion_is_bound_to_the_record_room_and_id]{C02} the statement that deletes the row of a received deletion record is bound to the room AND the id the record names - the room in which the author's right was checked: a record accepted for one room never removes a row stored in another (the statement text, `WHERE room_id=? AND id=?`, is SQL and is assumed)
+            // [received_row_deletion_is_bound_to_the_record_room_and_id]{C02,C11} the statement that deletes the row of a received deletion record is bound to the room AND the id the record names - the room in which the author's right was checked: a record accepted for one room never removes a row stored in another (the statement text, `WHERE room_id=? AND id=?`, is SQL and is assumed)
             r is Ok ==> forall|i: int| 0 <= i < old(nodes)@.len() ==> stmt_executed(((#[trigger] old(nodes)@[i]).room_id, old(nodes)@[i].id)),
             // [received_node_deletion_always_recorded]{C11,C03} every deletion record received from a peer is written to the deletion log - whether or not the row it deletes is stored here: it is what keeps this peer from fetching the row back, later, from a peer that has not seen the deletion, and what this peer hands on
             r is Ok ==> forall|i: int| 0 <= i < old(nodes)@.len() ==> node_tombstone_written(#[trigger] old(nodes)@[i]),
